@@ -25,6 +25,8 @@ def fr(x):
 def gen_lang(rng):
     n = rng.choice([0, 1, 2, 3, 4, 5, 6, 9])
     pool = [(1000000 * a, 1000000 * a + d) for a in range(0, 4) for d in (500000, 1500000)]      # instant 0 included
+    # timespans that differ by less than a millisecond, and by exactly one day: different instants, never one run
+    pool += [(1000400, 2500300), (1000000, 2500300), (1000400, 2500000), (86400 * 10 ** 6 + 1000000, 86400 * 10 ** 6 + 2500000)]
     caps = []
     nid = [1]
     cur = rng.choice(pool)
